@@ -161,7 +161,8 @@ def validate(source: str, filename: str, tc_string, info):
     for a, b in zip(co0, co1):
         # a class body's co_firstlineno is the line of its first decorator; the added (outermost) class decorator
         # sits on the 'class' line by design, so only function code objects are compared on their first line
-        is_function = bool(a[2] & 0x1)
+        # (PEP 695 '<generic parameters of C>' scopes of a decorated class start on its first decorator line too)
+        is_function = bool(a[2] & 0x1) and not a[0].startswith("<generic parameters of")
         if a[0] != b[0] or (is_function and a[1] != b[1]):
             raise Violation("line-numbers", case, f"code object {a[0]!r} starts at line {a[1]} in the plain module but {b[0]!r} at line {b[1]} in the hooked one")
         if (a[2] & FUTURE_MASK) != (b[2] & FUTURE_MASK):
